@@ -35,7 +35,26 @@ static bool g_have_sse = false;
 static long long g_sse_checks = 0;
 
 // buffer placed at the END of an exact-size heap block (over-read of one byte = ASan report) at the given alignment offset
+// the buffer under evaluation, for the sanitizer death hook
+static const uint8_t *g_cur_data = nullptr;
+static size_t g_cur_n = 0;
+static int g_cur_align = 0;
+static void death_case(std::string &ctext, std::string &msg) {
+  struct CaseLite {
+    static std::string ser(const uint8_t *d, size_t n, int al) {
+      Out o;
+      o << "property C17\nbuffer " << (n ? hex(bytes((const char *)d, n)) : std::string("-")) << " align=" << al << "\n";
+      return o.str();
+    }
+  };
+  if (!g_cur_data && g_cur_n) return;
+  ctext = CaseLite::ser(g_cur_data, g_cur_n > (1u << 20) ? 0 : g_cur_n, g_cur_align);
+  msg = "length " + std::to_string(g_cur_n) + ", alignment " + std::to_string(g_cur_align);
+}
 static bool check_buf(const uint8_t *data, size_t n, int align, uint32_t want) {
+  g_cur_data = data;
+  g_cur_n = n;
+  g_cur_align = align;
   // malloc returns 16-byte aligned memory; place the data at offset `align` and end the block right after it
   uint8_t *base = (uint8_t *)malloc((size_t)align + n + (n == 0 && align == 0 ? 1 : 0));
   uint8_t *p = base + align;
@@ -177,4 +196,7 @@ static int extra_modes(const WorkerOpts &o, Stats &stats) {
   return 0;
 }
 
-int main(int argc, char **argv) { return vf_main<Case>(argc, argv, "C17", gen_case, run_case, extra_modes); }
+int main(int argc, char **argv) {
+  g_death_cb = death_case;
+  return vf_main<Case>(argc, argv, "C17", gen_case, run_case, extra_modes);
+}
